@@ -33,6 +33,8 @@ impl From<&TweenerHandle> for ModulatorId {
 
 impl Drop for TweenerHandle {
 	fn drop(&mut self) {
+		#[cfg(feature = "verif-hooks")]
+		crate::verif::sync_point("modulator.removed.store");
 		self.shared.removed.store(true, Ordering::SeqCst);
 	}
 }
